@@ -534,7 +534,7 @@ package mqtt
 //@ ensures forall k string :: (has(r0, k) <==> has(s.internal, k)) && r0[k] == s.internal[k]
 
 // verif:func mqtt.Server.inheritClientSession modifies=all
-//@ requires validCl(cl) && validSrv(s) && s.Clients != nil && s.Topics != nil && cl.State.Subscriptions != nil && cl.ops.options != nil && cl.ops.options.Capabilities != nil
+//@ requires validCl(cl) && validSrv(s) && s.Clients != nil && s.Topics != nil && s.Topics.root != nil && cl.State.Subscriptions != nil && cl.State.Subscriptions.internal != nil && cl.ops.options != nil && cl.ops.options.Capabilities != nil
 //@ requires !s.Options.Capabilities.Compatibilities.PassiveClientDisconnect
 // the connecting client is not registered yet (attachClient registers it after this call)
 //@ requires !has(s.Clients.internal, cl.ID) || s.Clients.internal[cl.ID] != cl
